@@ -152,7 +152,7 @@ class Creators:
     before anything is changed."""
     for queued in self._line_queue:
       if isinstance(queued, str):
-        rt = queued[0:1]
+        rt = Creators.__record_type_of_string(queued)
       else:
         rt = queued.record_type
       if version == "gfa1":
